@@ -20,5 +20,5 @@ CHECK = {
         "the responder's store is a harness content-id store (the real adapters are exercised under C01/C04)",
         "pairs without a common protocol version are expected to fail uTP transfers (C19 owns that) and are only required to succeed inline",
     ],
-    "required_classes": {"quick": ["size-near-threshold", "e2e-utp", "e2e-inline", "enrs-non-empty", "enrs-truncated-by-size", "lossy-link", "asker-in-table"]},
+    "required_classes": {"quick": ["size-near-threshold", "e2e-utp", "e2e-inline", "enrs-non-empty", "enrs-truncated-by-size", "lossy-link", "asker-in-table", "after-unopened-streams:limit=1"]},
 }
